@@ -15,8 +15,8 @@ package main
 
 import (
 	"bytes"
-	"errors"
 	"encoding/json"
+	"errors"
 	"fmt"
 	"go/ast"
 	goparser "go/parser"
@@ -72,9 +72,10 @@ const (
 // ---------------------------------------------------------------- running one decoder
 
 type totalOut struct {
-	class string // ok | err | panic:<site>
-	alloc uint64
-	dur   time.Duration
+	refused bool   // explicit panic of an encoder in the accessor stage (re-encoding refused)
+	class   string // ok | err | panic:<site>
+	alloc   uint64
+	dur     time.Duration
 }
 
 // totalPanicSite names the innermost frame of the library that was executing when the panic
@@ -87,6 +88,11 @@ func totalPanicSite() string {
 		fr, more := frames.Next()
 		if strings.HasPrefix(fr.Function, "seehuhn.de/go/sfnt/") || strings.HasPrefix(fr.Function, "seehuhn.de/go/sfnt.") {
 			if !strings.Contains(fr.Function, "verifharness") {
+				fn := fr.Function[strings.LastIndex(fr.Function, ".")+1:]
+				switch fn {
+				case "encode", "Encode", "Append", "EncodeLen", "encodeLen", "AppendLen", "Write":
+					totalPanicInEncoder = true
+				}
 				file := fr.File
 				if i := strings.Index(file, "/repo/"); i >= 0 {
 					file = file[i+6:]
@@ -131,13 +137,26 @@ func totalPanicClass(r any) string {
 	return "explicit:" + msg
 }
 
+// totalPanicInEncoder: the innermost library frame of the last recovered panic is an encoder
+// (encode/Encode/Append/Write…).
+var totalPanicInEncoder bool
+
 func totalRun(fn func() error) (res totalOut) {
 	var m0, m1 runtime.MemStats
 	runtime.ReadMemStats(&m0)
 	t0 := time.Now()
 	defer func() {
 		if r := recover(); r != nil {
+			totalPanicInEncoder = false
 			res.class = "panic:" + totalPanicSite() + ":" + totalPanicClass(r)
+			// Known class (known_findings.jsonl C02-reencode-refused): since the C08 repairs an encoder
+			// REFUSES a value it cannot represent (16-bit offsets/counts) with an explicit panic instead
+			// of truncating silently.  A decoded table can be such a value (aliased offsets: small on
+			// disk, large when written without sharing).  Only explicit panics raised inside an encoder
+			// count; index/slice/nil panics anywhere, and explicit panics elsewhere, stay violations.
+			if totalPanicInEncoder && strings.Contains(res.class, ":explicit:") {
+				res.refused = true
+			}
 		}
 		res.dur = time.Since(t0)
 		runtime.ReadMemStats(&m1)
@@ -498,6 +517,11 @@ func totalD(dname string, f Fields) string {
 	fn := totalDecoders[dname]
 	res := totalRun(func() error { return fn(f) })
 	totalLast = res
+	if res.refused && f["strict"] != "1" {
+		// counted as its own outcome class; the case line with strict=1 is the known finding
+		totalLast.class = "reencode-refused"
+		return "total"
+	}
 	if res.class != "ok" && res.class != "err" {
 		return res.class
 	}
@@ -721,7 +745,7 @@ func init() {
 		if b == nil || totalDecoders[dec] == nil {
 			return "bad-case"
 		}
-		return totalD(dec, Fields{"bytes": hx(b), "acc": f["acc"]})
+		return totalD(dec, Fields{"bytes": hx(b), "acc": f["acc"], "strict": f["strict"]})
 	}
 
 	// ---- verdict ops: canonical decoded values for the checked-index Lean models
@@ -1266,7 +1290,6 @@ func totalClassdef2Zigzag(pairs int) []byte {
 	return b
 }
 
-
 // ---------------------------------------------------------------- structured inputs for the modelled decoders
 
 func totalGenKern(r *Rng) []byte {
@@ -1765,10 +1788,10 @@ func totalT2Bomb(levels, calls int) (gsubrs [][]byte, glyph []byte) {
 // offsets all pointing at ONE rule of `glyphs` input glyphs (§9 #27).
 func totalGsubContextAliased(rules, glyphs int) []byte {
 	b := []byte{0, 1, 0, 0, 0, 10, 0, 12, 0, 14} // version 1.0; script list @10, feature list @12, lookup list @14
-	b = append(b, 0, 0)                         // script list: no scripts
-	b = append(b, 0, 0)                         // feature list: no features
-	b = append(b, 0, 1, 0, 4)                   // lookup list: one lookup at +4
-	b = append(b, 0, 5, 0, 0, 0, 1, 0, 8)       // lookup: type 5, flags 0, one subtable at +8
+	b = append(b, 0, 0)                          // script list: no scripts
+	b = append(b, 0, 0)                          // feature list: no features
+	b = append(b, 0, 1, 0, 4)                    // lookup list: one lookup at +4
+	b = append(b, 0, 5, 0, 0, 0, 1, 0, 8)        // lookup: type 5, flags 0, one subtable at +8
 	covOff := 10 + 2*rules
 	ruleOff := 2 + 2*rules + 6 // relative to the rule set (subtable + 8)
 	b = append(b, 0, 1)        // format 1
@@ -2311,15 +2334,15 @@ func areaTotal(c *Ctx) {
 	adv("kind=t2-nested-gsubrs levels=4 calls=12")
 	// families "many maximal records, each individually legal" (size/count caps and overlap checks)
 	for _, a := range []string{
-		"kind=cmap12-groups groups=16 per=4096",               // exactly 65536 mappings: accepted
-		"kind=cmap12-groups groups=17 per=4096",               // 69632: over the cap
-		"kind=cmap12-groups groups=32 per=65536",              // 32 full groups, 412 bytes
-		"kind=cmap12-groups groups=2000 per=33",               // many small groups
-		"kind=cmap12-groups groups=64 per=1024 stride=1000",   // overlapping groups
-		"kind=cmap4-segments segs=1",                          // one segment 0..0xFFFE
-		"kind=cmap4-segments segs=4 full=1",                   // the same range four times
-		"kind=cmap4-segments segs=2000",                       // 2000 adjacent segments
-		"kind=cmap-shared recs=200",                           // one subtable shared by 200 records
+		"kind=cmap12-groups groups=16 per=4096",             // exactly 65536 mappings: accepted
+		"kind=cmap12-groups groups=17 per=4096",             // 69632: over the cap
+		"kind=cmap12-groups groups=32 per=65536",            // 32 full groups, 412 bytes
+		"kind=cmap12-groups groups=2000 per=33",             // many small groups
+		"kind=cmap12-groups groups=64 per=1024 stride=1000", // overlapping groups
+		"kind=cmap4-segments segs=1",                        // one segment 0..0xFFFE
+		"kind=cmap4-segments segs=4 full=1",                 // the same range four times
+		"kind=cmap4-segments segs=2000",                     // 2000 adjacent segments
+		"kind=cmap-shared recs=200",                         // one subtable shared by 200 records
 		"kind=coverage2-ranges dec=coverage ranges=1 per=65536",
 		"kind=coverage2-ranges dec=covset ranges=1 per=65536",
 		"kind=coverage2-ranges dec=coverage ranges=8192 per=8",
